@@ -179,6 +179,8 @@ PROPS["C09"] = dict(
           "3-bucket table built directly (slots empty); no next() call", ["RoutingTable::closest_nodes", "ClosestNodes::new", "precompute_assorted_nodes", "bucket_iterator", "leading_bit_count", "InfoHash::flip_bit", "InfoHash::leading_zeros"]),
         H("c09_closest_setup_b1", "table", T, 1500, "as c09_closest_setup_b3 on a 1-bucket table (the initial table: every node is assorted)", "no next() call", ["ClosestNodes::new", "precompute_assorted_nodes", "bucket_iterator"]),
         H("c09_closest_setup_b2", "table", T, 1500, "as c09_closest_setup_b3 on a 2-bucket table", "no next() call", ["ClosestNodes::new", "precompute_assorted_nodes", "bucket_iterator"]),
+        H("c09_closest_setup_full_table", "table", T, 2500, "160-bucket table (slots empty); target bit s and probe bucket index symbolic",
+          "no next() call; 160 pushes unrolled (unwind 163); needs an unlimited stack for CBMC", ["ClosestNodes::new", "precompute_assorted_nodes", "bucket_iterator"]),
         H("c09_walk_length", "table", Q, 1200, "start index s in 0..=160 symbolic",
           "whole walk, 161 iterations unrolled (unwind 163)", ["next_bucket_index"]),
     ],
